@@ -156,13 +156,19 @@ func (fs LocalFileSystem) Create(ctx context.Context, name string, body io.ReadC
 	}
 	fi, _ = fs.Stat(ctx, name)
 	created = fi == nil
+	if fi != nil && fi.IsDir {
+		return nil, false, NewHTTPError(http.StatusMethodNotAllowed, fmt.Errorf("webdav: cannot PUT to a collection"))
+	}
 
 	if err := checkConditionalMatches(fi, opts.IfMatch, opts.IfNoneMatch); err != nil {
 		return nil, false, err
 	}
 
 	wc, err := os.Create(p)
-	if err != nil {
+	if os.IsNotExist(err) || errors.Is(err, syscall.ENOTDIR) {
+		// RFC 4918 section 9.7.1: the parent collection is missing
+		return nil, false, NewHTTPError(http.StatusConflict, errFromOS(err))
+	} else if err != nil {
 		return nil, false, errFromOS(err)
 	}
 	defer wc.Close()
